@@ -774,6 +774,7 @@ def atomic_new(ctx):
 
 @contract(r'^(?:std::sync::atomic::)?Atomic(?:U|I)(?:8|16|32|64|size)::load$')
 def atomic_load(ctx):
+    ctx.st.trace.append(('atomic.load',))
     return _atomic(ctx, ctx.args[0], _atomic_bits(ctx.callee)).fields[0]
 
 
@@ -793,6 +794,7 @@ def atomic_fetch_add(ctx):
     old = a.fields[0]
     ctx.ex.store(ctx.st, r.cell, r.path, Agg('Atomic', {0: Int(simp(old.t + ctx.args[1].t), old.bits, old.signed)}))
     ctx.st.trace.append(('atomic.fetch_add', r.cell, r.path))
+    ctx.st.trace.append(('atomic.rmw', 'fetch_add', r.cell, r.path))
     return old
 
 
@@ -841,6 +843,71 @@ def atomic_bool_op(ctx):
     hit = simp(old.t == ctx.args[1].t)
     put(z3.If(hit, ctx.args[2].t, old.t))
     return Agg('Result', {}, simp(z3.If(hit, BV(0, 64), BV(1, 64))), {0: {0: old}, 1: {0: old}}, ctx.ex.si.enums['Result'])
+
+
+@contract(r'^(?:std::sync::atomic::)?Atomic(?:U|I)(?:8|16|32|64|size)::fetch_update::<.*>$')
+def atomic_fetch_update(ctx):
+    """fetch_update(set_order, fetch_order, f): one atomic read-modify-write -- f(old) = Some(new) stores new and gives
+    Ok(old); None leaves the value and gives Err(old).  (The retry loop of the real thing only matters under contention.)"""
+    ex, st = ctx.ex, ctx.st
+    r = ctx.args[0]
+    a = _atomic(ctx, r, _atomic_bits(ctx.callee))
+    old = a.fields[0]
+    rs = apply_callable(ctx, ctx.args[3], [old])
+    if rs is None:
+        return NotImplemented
+    outs = []
+    res = ex.si.enums['Result']
+    for s2, opt in rs:
+        if not (isinstance(opt, Agg) and opt.discr is not None):
+            return NotImplemented
+        d = opt.discr
+        some = z3.BoolVal(d == 1) if isinstance(d, int) else simp(d == BV(1, 64))
+        t, f = ex.branch(s2, some)
+        if t:
+            s3 = s2.fork() if f else s2
+            ex.assume(s3, some)
+            newv = opt.variants.get(1, {}).get(0)
+            if not isinstance(newv, Int):
+                return NotImplemented
+            ex.store(s3, r.cell, r.path, Agg('Atomic', {0: newv}))
+            s3.trace.append(('atomic.rmw', 'fetch_update', r.cell, r.path))
+            outs.append((s3, Agg('Result', {}, 0, {0: {0: old}}, res)))
+        if f:
+            if t:
+                ex.assume(s2, z3.Not(some))
+            s2.trace.append(('atomic.rmw', 'fetch_update', r.cell, r.path))
+            outs.append((s2, Agg('Result', {}, 1, {1: {0: old}}, res)))
+    return outs
+
+
+@contract(r'^Result::<.*>::unwrap_or_else::<.*>$|^(?:std::option::)?Option::<.*>::unwrap_or_else::<.*>$')
+def unwrap_or_else(ctx):
+    """Ok(v) / Some(v) -> v; otherwise the real closure applied to the error (Result) or to nothing (Option)"""
+    ex, st = ctx.ex, ctx.st
+    v, _ = to_enum(ex, st, ctx.args[0])
+    is_result = ctx.callee.startswith('Result')
+    good = 0 if is_result else 1
+    d = v.discr
+    isgood = z3.BoolVal(d == good) if isinstance(d, int) else simp(d == BV(good, 64))
+    t, f = ex.branch(st, isgood)
+    outs = []
+    hm = re.match(r'^(?:Result|(?:std::option::)?Option)::<(.*)>::unwrap_or_else::<', ctx.callee, re.S)
+    tys = generic_args('X<%s>' % hm.group(1))[1] if hm else []
+    if t:
+        s2 = st.fork() if f else st
+        ex.assume(s2, isgood)
+        outs.append((s2, payload(ex, s2, v, good, 0, tys[0].strip() if tys else 'unknown')))
+    if f:
+        if t:
+            ex.assume(st, z3.Not(isgood))
+        c2 = type(ctx)(ex, st, ctx.fr, ctx.callee, ctx.args, ctx.dest_ty)
+        args = [payload(ex, st, v, 1, 0, tys[1].strip() if len(tys) > 1 else 'unknown')] if is_result else []
+        rs = apply_callable(c2, ctx.args[1], args)
+        if rs is None:
+            return NotImplemented
+        outs += list(rs)
+    return outs
 
 
 @contract(r'^(?:std::sync::atomic::)?Atomic(?:U|I)(?:8|16|32|64|size)::swap$')
@@ -942,7 +1009,13 @@ def _iter_bound(ex):
 def iter_rev(ctx):
     """iter.rev() over an explicit list (vec::IntoIter / slice::Iter): the same elements, last first"""
     it = ctx.args[0]
-    if isinstance(it, Agg) and it.name in ('vec::IntoIter', 'slice::Iter') and _explicit_elems(ctx, it, by_value=True) is not None:
+    if isinstance(it, Agg) and it.name == 'vec::IntoIter':
+        # by-value iteration over an explicit list: the reverse is again a by-value iteration, over the remaining items reversed
+        seq, pos = it.fields[0], concrete(it.fields[1].t)
+        if isinstance(seq, SeqV) and seq.items is not None and pos is not None:
+            return Agg('vec::IntoIter', {0: SeqV.from_items(list(reversed(seq.items[pos:])), seq.elem_ty, seq.kind), 1: Int(BV(0, 64), 64, False)})
+        return NotImplemented
+    if isinstance(it, Agg) and it.name == 'slice::Iter' and _explicit_elems(ctx, it, by_value=True) is not None:
         return Agg('iter::Rev', {0: it})
     return NotImplemented
 
@@ -1267,7 +1340,7 @@ def vec_into_iter(ctx):
     return NotImplemented
 
 
-@contract(r'^<std::vec::IntoIter<.*> as Iterator>::next$')
+@contract(r'^<std::vec::IntoIter<.*> as Iterator>::next$|^<(?:std::iter::)?Rev<std::vec::IntoIter<.*>> as Iterator>::next$')
 def vec_into_iter_next(ctx):
     ex, st = ctx.ex, ctx.st
     r = ctx.args[0]
@@ -1353,6 +1426,37 @@ def vec_into_iter_collect(ctx):
         return NotImplemented
     kind = 'list' if 'LinkedList' in ctx.callee.split('collect::<', 1)[1] else seq.kind
     return SeqV.from_items(seq.items[pos:], seq.elem_ty, kind)
+
+
+@contract(r'^LinkedList::<.*>::new$|^<LinkedList<.*> as Default>::default$|^VecDeque::<.*>::new$')
+def list_new(ctx):
+    return SeqV.from_items([], None, 'list' if 'LinkedList' in ctx.callee else 'vecdeque')
+
+
+@contract(r'^LinkedList::<.*>::split_off$|^Vec::<(?!u8>).*>::split_off$|^VecDeque::<.*>::split_off$')
+def seq_split_off(ctx):
+    """a.split_off(at): a keeps [0, at), the returned list is [at, len); panics if at > len.  One successor per possible `at`
+    on an explicit list."""
+    ex, st = ctx.ex, ctx.st
+    v, loc = seq_loc(ex, st, ctx.args[0])
+    if not (isinstance(v, SeqV) and v.items is not None) or not isinstance(ctx.args[1], Int):
+        return NotImplemented
+    at = ctx.args[1].t
+    n = len(v.items)
+    ex.require(st, z3.ULE(at, BV(n, 64)), 'split_off', 'split_off index beyond the length')
+    outs = []
+    for k in range(n + 1):
+        c = simp(at == BV(k, 64))
+        if z3.is_false(c):
+            continue
+        t, _f = ex.branch(st, c)
+        if not t:
+            continue
+        s2 = st.fork()
+        ex.assume(s2, c)
+        ex.store(s2, loc[0], loc[1], SeqV.from_items(v.items[:k], v.elem_ty, v.kind))
+        outs.append((s2, SeqV.from_items(v.items[k:], v.elem_ty, v.kind)))
+    return outs
 
 
 @contract(r'^LinkedList::<.*>::len$')
@@ -1794,6 +1898,29 @@ def result_map(ctx):
     return outs
 
 
+@contract(r'^core::num::<impl ([iu](?:8|16|32|64|128|size))>::(count_ones|count_zeros|leading_zeros|trailing_zeros)$|^([iu](?:8|16|32|64|128|size))::(count_ones|count_zeros|leading_zeros|trailing_zeros)$')
+def int_bit_counts(ctx):
+    """population count and zero counts of an integer, as u32"""
+    a = ctx.args[0]
+    if not isinstance(a, Int):
+        return NotImplemented
+    n = a.bits
+    op = ctx.callee.rsplit('::', 1)[1]
+    bits = [z3.Extract(i, i, a.t) for i in range(n)]
+    one, zero = BV(1, 32), BV(0, 32)
+    if op in ('count_ones', 'count_zeros'):
+        want = BV(1, 1) if op == 'count_ones' else BV(0, 1)
+        acc = zero
+        for b in bits:
+            acc = acc + z3.If(b == want, one, zero)
+        return Int(simp(acc), 32, False)
+    order = bits if op == 'trailing_zeros' else bits[::-1]
+    res = BV(n, 32)
+    for k in range(n - 1, -1, -1):
+        res = z3.If(order[k] == BV(1, 1), BV(k, 32), res)
+    return Int(simp(res), 32, False)
+
+
 @contract(r'^<([iu](?:8|16|32|64|128|size)) as (?:std::convert::)?(?:From|Into)<([iu](?:8|16|32|64|128|size))>>::(?:from|into)$')
 def int_from_into(ctx):
     """lossless integer conversions (`usize::from(u8)`, `u16.into()` ...): zero- or sign-extension of the source"""
@@ -2017,6 +2144,57 @@ def bufreader_buffer(ctx):
     return Ref(st.alloc(strm.inp.slice(strm.pos, k, 'slice')), ())
 
 
+@contract(r' as (?:tokio::io::)?AsyncBufReadExt>::fill_buf$')
+def tokio_fill_buf(ctx):
+    return Future('fill_buf', [ctx.args[0]])
+
+
+@awaiter('fill_buf')
+def _await_fill_buf(ctx, fut):
+    """fill_buf(): a view of the bytes available without consuming them -- any non-empty prefix of what is left (how much the
+    reader happens to hold: segmentation), empty only at end of stream"""
+    ex, st = ctx.ex, ctx.st
+    strm, loc = stream_of(ex, st, fut.args[0])
+    outs = []
+    _maybe_io_error(ex, st, outs, 'fill_buf')
+    rem = simp(strm.inp.len - strm.pos)
+    # segmentation: 'whole' -- everything that is left is there (the message arrived in one piece);
+    # 'split-once' -- the first view of a stream is any non-empty prefix, later views hold all the rest (one split at an
+    # arbitrary point); 'any' -- every view is any non-empty prefix
+    mode = getattr(ex, 'fill_buf_mode', 'whole')
+    nsplit = st.env.get('fill_splits', {}).get(strm.name, 0)
+    if mode == 'whole' or (mode == 'split-once' and nsplit >= 1):
+        k = rem
+    else:
+        k = z3.BitVec(fresh_name('filled'), 64)
+        ex.assume(st, z3.And(z3.ULE(k, rem), z3.Implies(rem != BV(0, 64), k != BV(0, 64))))
+        st.env['fill_splits'] = dict(st.env.get('fill_splits', {}), **{strm.name: nsplit + 1})
+        if strm.ahead is not None:
+            ex.assume(st, z3.UGE(k, strm.ahead))     # what the reader already held stays in the view
+    ex.store(st, loc[0], loc[1], strm.replace(ahead=k))
+    st.trace.append(('fill_buf', strm.name, k))
+    st.env['last_fill'] = (strm.name, k)
+    outs.append((st, mk_result(ex, ok=Ref(st.alloc(strm.inp.slice(strm.pos, k, 'slice')), ()))))
+    return outs
+
+
+@contract(r' as (?:tokio::io::)?AsyncBufReadExt>::consume$|^<.* as (?:tokio::io::)?AsyncBufRead>::consume$')
+def tokio_consume(ctx):
+    """consume(n): the first n buffered bytes are done with (n must not exceed what fill_buf showed)"""
+    ex, st = ctx.ex, ctx.st
+    a = ctx.args[0]
+    try:
+        strm, loc = stream_of(ex, st, a)
+    except Unsupported:
+        return NotImplemented
+    n = ctx.args[1].t
+    held = strm.ahead if strm.ahead is not None else simp(strm.inp.len - strm.pos)
+    ex.require(st, z3.ULE(n, held), 'consume', 'consume() beyond the bytes fill_buf() returned')
+    ex.store(st, loc[0], loc[1], strm.replace(pos=simp(strm.pos + n), ahead=simp(held - n)))
+    st.trace.append(('read', strm.name, n))
+    return UNIT
+
+
 @contract(r'^tokio::io::BufReader::<.*>::into_inner$')
 def bufreader_into_inner(ctx):
     """BufReader::into_inner(): the inner stream -- whatever the reader had buffered is gone with the reader"""
@@ -2103,6 +2281,31 @@ def slice_get_usize(ctx):
         s2 = st.fork() if f else st
         ex.assume(s2, inside)
         outs.append((s2, mk_option(ex, Ref(loc[0], loc[1] + (('i', i),)))))
+    if f:
+        if t:
+            ex.assume(st, z3.Not(inside))
+        outs.append((st, mk_option(ex, None)))
+    return outs
+
+
+@contract(r'^core::slice::<impl \[u8\]>::get::<usize>$|^Vec::<u8>::get::<usize>$|^core::slice::get::<usize>$')
+def bytes_get_usize(ctx):
+    """[u8]::get(i) on a byte buffer: Some(&self[i]) iff i < len"""
+    ex, st = ctx.ex, ctx.st
+    try:
+        loc = BufLoc(ex, st, ctx.args[0])
+    except Unsupported:
+        return NotImplemented
+    if not isinstance(loc.val, Bytes) or not isinstance(ctx.args[1], Int):
+        return NotImplemented
+    i = ctx.args[1].t
+    inside = simp(z3.ULT(i, loc.val.len))
+    t, f = ex.branch(st, inside)
+    outs = []
+    if t:
+        s2 = st.fork() if f else st
+        ex.assume(s2, inside)
+        outs.append((s2, mk_option(ex, Ref(s2.alloc(Int(simp(loc.val.at(i)), 8, False)), ()))))
     if f:
         if t:
             ex.assume(st, z3.Not(inside))
@@ -2637,6 +2840,9 @@ def str_trim(ctx):
     ex.assume(st, z3.And(z3.ULE(off, b.len), z3.ULE(n, b.len), z3.ULE(simp(off + n), b.len)))
     if ctx.callee.endswith('trim_start'):
         ex.assume(st, simp(off + n) == b.len)
+    # a &str never starts or ends inside a character: the byte at either boundary is not a UTF-8 continuation byte
+    for pos in (off, simp(off + n)):
+        ex.assume(st, z3.Implies(z3.ULT(pos, b.len), (b.at(pos) & BV(0xC0, 8)) != BV(0x80, 8)))
     cell, path = loc.loc
     if path and path[-1][0] == 'slice':
         return Ref(cell, path[:-1] + (('slice', simp(U64(path[-1][1]) + off), n),))
